@@ -6,16 +6,16 @@
 From BM Require Import BlockModes Plumbing Toy Ctr Belt Stream Cts Interp Machine_proofs.
 
 (* an operation leaves every instance it neither names nor defines untouched *)
-Theorem C16_frame : forall bs w dm s rs o j, op_reads o <> Some j -> op_defines o <> Some j ->
+Theorem C16_frame : forall bs w dm s rs o j, ~ In j (op_reads o) -> op_defines o <> Some j ->
   lookup (fst (step bs w dm s rs o)) j = lookup s j.
 Proof. exact step_frame. Qed.
 Print Assumptions C16_frame.
 
 (* results and the footprint's new contents depend only on the footprint's old contents *)
 Theorem C16_local : forall bs w dm s1 s2 rs o,
-  (forall id, op_reads o = Some id \/ op_defines o = Some id -> lookup s1 id = lookup s2 id) ->
+  (forall id, In id (op_reads o) \/ op_defines o = Some id -> lookup s1 id = lookup s2 id) ->
   snd (step bs w dm s1 rs o) = snd (step bs w dm s2 rs o) /\
-  (forall j, op_reads o = Some j \/ op_defines o = Some j ->
+  (forall j, In j (op_reads o) \/ op_defines o = Some j ->
              lookup (fst (step bs w dm s1 rs o)) j = lookup (fst (step bs w dm s2 rs o)) j).
 Proof. exact step_local. Qed.
 Print Assumptions C16_local.
@@ -27,6 +27,13 @@ Theorem C16_clone : forall bs w dm s rs id newid ob, lookup s id = Some ob ->
 Proof. exact step_clone. Qed.
 Print Assumptions C16_clone.
 
-Example C16_frame_nonvacuous : op_reads (OpIvState 3) <> Some 4 /\ op_defines (OpIvState 3) <> Some 4.
-Proof. split; discriminate. Qed.
+(* clone_from overwrites the destination with the very value of the source (same type on both sides) *)
+Theorem C16_clone_from : forall bs w dm s rs dst src ob,
+  lookup (fst (step bs w dm s rs (OpCloneFrom dst src))) dst = Some ob ->
+  snd (step bs w dm s rs (OpCloneFrom dst src)) = ROk -> lookup s src = Some ob.
+Proof. exact step_clone_from. Qed.
+Print Assumptions C16_clone_from.
+
+Example C16_frame_nonvacuous : ~ In 4 (op_reads (OpIvState 3)) /\ op_defines (OpIvState 3) <> Some 4.
+Proof. split; [cbn; intuition discriminate | discriminate]. Qed.
 Print Assumptions C16_frame_nonvacuous.
